@@ -256,3 +256,77 @@ def canon_show(d, v):
 
 def unordered(key):
     return any(x in key for x in ("set(", "heap(", "map("))
+
+
+def shape_encode(d, v, rng, rate=0.12):
+    """A well-formed item derived from value v of descriptor d: always a well-formed encoding, mostly of the same data-model
+    value in a *non-preferred* form (wider heads, indefinite arrays / maps), and with probability `rate` per node one shape
+    edit: chunked string, surplus / missing / replaced element, an extra tag, definite <-> indefinite where the impl cares,
+    undefined for null, a narrower float.  What the built-in type must answer is decided by Spec/TypeSem.v (S= of DT)."""
+    def hd(mt, n):
+        ws = widths_for(n)
+        return head(mt, n, rng.choice(ws[1:] or ws) if rng.random() < 0.7 else None)
+    def edit(): return rng.random() < rate
+    def junk(): return gen_item(rng, 2)
+    def arr(items, indef_p=0.5):
+        items = list(items)
+        if edit(): items.append(junk())                               # surplus element
+        elif edit() and items: items.pop()                            # missing element
+        elif edit() and items: items[rng.randrange(len(items))] = junk()   # wrong shape inside
+        if rng.random() < indef_p: return b"\x9f" + b"".join(items) + b"\xff"
+        return hd(4, len(items)) + b"".join(items)
+    def integer(x): return hd(0, x) if x >= 0 else hd(1, -1 - x)
+    def string(mt, b):
+        if edit():                                                    # chunked
+            k = rng.randrange(0, len(b) + 1)
+            parts = [b[:k], b[k:]] if rng.random() < 0.7 else [b]
+            return bytes([mt * 32 + 31]) + b"".join(hd(mt, len(p)) + p for p in parts) + b"\xff"
+        if edit(): mt = 5 - mt                                        # bytes <-> text
+        return hd(mt, len(b)) + b
+    def go(d, v):
+        k = d[0]
+        if edit() and rng.random() < 0.3: return hd(6, rng.choice([0, 1, 7, 24, 55799])) + go(d, v)      # extra tag
+        if k in ("u", "i", "nzu", "nzi", "int", "char"):
+            if edit(): v = rng.choice([0, -1, 255, 256, -129, 65536, 1 << 32, -(1 << 63) - 1, (1 << 64) - 1, 0xd800, 0x110000])
+            return integer(v)
+        if k == "bool": return rng.choice([b"\xf4", b"\xf5", b"\xf6", b"\xf7", b"\xe0", b"\xf8\x20", b"\x01"]) if edit() else (b"\xf5" if v else b"\xf4")
+        if k == "f32":
+            if edit(): return rng.choice([b"\xf9\x3c\x00", b"\xfb" + (v << 29).to_bytes(8, "big"), integer(1)])
+            return b"\xfa" + v.to_bytes(4, "big")
+        if k == "f64":
+            if edit(): return rng.choice([b"\xf9\x7c\x00", b"\xfa\x3f\x80\x00\x00", integer(1)])
+            return b"\xfb" + v.to_bytes(8, "big")
+        if k == "str": return string(3, v if not edit() else v + b"\xff")
+        if k in ("bytes", "bytearr"): return string(2, v if not edit() else v + b"\x00")
+        if k == "cstr": return string(2, (v + b"\x00") if not edit() else rng.choice([v, v + b"\x00\x00", b"\x00" + v + b"\x00"]))
+        if k == "unit": return rng.choice([b"\x9f\xff", hd(4, 1) + junk(), b"\xa0", b"\xf6"]) if edit() else hd(4, 0)
+        if k == "opt":
+            if v is None: return rng.choice([b"\xf7", b"\xf8\x20", hd(4, 0)]) if edit() else b"\xf6"
+            return go(d[1], v[1])
+        if k == "seq": return arr([go(d[1], x) for x in v])
+        if k == "arr": return arr([go(d[2], x) for x in v])
+        if k == "map":
+            kvs = [(go(d[1], a), go(d[2], b)) for a, b in v]
+            if edit() and kvs: kvs.append((kvs[0][0], kvs[-1][1]))    # duplicate key: the later entry wins
+            if edit(): return arr([x for kv in kvs for x in kv])      # array instead of map
+            items = [a + b for a, b in kvs]
+            if rng.random() < 0.5: return b"\xbf" + b"".join(items) + b"\xff"
+            return hd(5, len(items)) + b"".join(items)
+        if k in ("tup", "fields"): return arr([go(x, y) for x, y in zip(d[1], v)], 0.25)
+        if k == "enum":
+            idx = v[1] if not edit() else rng.choice([len(d[1]), 1 << 32, 1 - v[1] if len(d[1]) == 2 else 0])
+            return arr([integer(idx), go(d[1][v[1]], v[2])], 0.15)
+        if k == "bound":
+            idx = v[1] if not edit() else rng.choice([3, 2, 0])
+            return arr([integer(idx), go(d[1], v[2]) if v[1] < 2 else (junk() if rng.random() < 0.5 else hd(4, 0))], 0.15)
+        if k == "tagged": return hd(6, d[1] if not edit() else d[1] + 1) + go(d[2], v)
+        if k == "tag": return hd(6, v) + junk()
+        if k == "duration":
+            ns = v[1] if not edit() else rng.choice([1000000000, (1 << 32) - 1, 1 << 32])
+            s = v[0] if not edit() else rng.choice([(1 << 64) - 1, (1 << 64) - 4])
+            return arr([integer(s), integer(ns)])
+        if k == "systemtime":
+            s = v[2][0] if not edit() else rng.choice([(1 << 63) - 1, 1 << 63, (1 << 64) - 1])
+            return arr([integer(s), integer(v[2][1])])
+        raise ValueError(d)
+    return go(d, v)
